@@ -562,6 +562,27 @@ def r11_7(chk, so):
                         and string_value(va[1].as_atom()[1]) == "-" + letter and va[2] == P.const(-1) and va[3] == P.const(1)
                         and va[1].as_atom()[2].key() == g[-1].as_atom()[2].key())
             oksign = oksign and good
+    if nax == 1:
+        # table-driven form: axis = next(a for a in AXES if a in token); rotation[i, AXES[axis]] = -1 if "-" + axis in token else 1
+        e = [x for x in dv.events if x.kind == "store" and "rotation" in x.target.key()][0]
+        col = e.target.as_atom()[2][1].as_atom()
+        table = col[1].key() if col and col[0] == "sub" and len(col[2]) == 1 else None
+        lit = None
+        node_t = so.toplevel_assign(table) if table else None
+        if isinstance(node_t, ast.Dict):
+            try:
+                lit = ast.literal_eval(node_t)
+            except ValueError:
+                lit = None
+        ax = col[2][0] if table else None
+        axa = ax.as_atom() if ax is not None else None
+        picks = bool(axa and call_name(axa) == "next" and axa[2] and axa[2][0].as_atom() and axa[2][0].as_atom()[0] == "comp"
+                     and f"(iter {table} ((in {table}[" in axa[2][0].key())
+        va = e.value.as_atom()
+        sign = bool(va and va[0] == "ite" and va[2] == P.const(-1) and va[3] == P.const(1) and va[1].as_atom() and va[1].as_atom()[0] == "in"
+                    and va[1].as_atom()[1].key() == f"(concat ('-' {ax}))" and ax is not None and va[1].as_atom()[2].key() in axa[2][0].key())
+        oksign = lit == {"x": 0, "y": 1, "z": 2} and list(lit) == ["x", "y", "z"] and picks and sign
+        nax = 3 if oksign else 1
     chk.ob("R11.7", SO, "decode_symm_str", "column k of the rotation row is set from the token containing axis letter k, "
            "negative exactly when that token contains '-<letter>'", oksign and nax == 3, found=f"{nax} axis stores")
     # numeric terms keep their sign: the token reaches Fraction()/float() unstripped, or a helper that strips the sign puts it back on
@@ -623,7 +644,7 @@ def r11_7(chk, so):
     for e in ev.events:
         if e.kind == "assign" and e.name == "symbols":
             syms = string_value(e.value)
-    fn = so.func("encode_symm_str")
+    fn = getattr(ev, "fn", None) or so.func("encode_symm_str")        # the evaluated tree (helpers new to the rule set expanded)
     lits = {n.value for n in ast.walk(fn) if isinstance(n, ast.Constant) and isinstance(n.value, str) and len(n.value) <= 3}
     chk.ob("R11.7", SO, "encode_symm_str", "axis symbols are 'xyz' in column order and signs are '+'/'-'",
            syms == "xyz" and {"+", "-", ","} <= lits, found=f"{syms} {sorted(lits)}")
